@@ -69,9 +69,29 @@ theorem store_frame (cfg : Cfg) (s : St) (u : String) (v : Nat) (p : Policy) :
 theorem bump_inv (cfg : Cfg) (s : St) (hi : CacheInv cfg s) : CacheInv cfg (bump s) :=
   ⟨hi.cached, hi.past, hi.noEmbedded⟩
 
+/-- the IPFS node client changes nothing but the request count, and a document it returns is the one the node has now -/
+theorem ipfsNode_spec (s s2 : St) (k : String) (r : Res) (h : loadIPFSNode s k = (s2, r)) :
+    s2 = bump s ∧ ∀ v, r = .doc v → ∃ p, s.origin.lookup k = some (.serves v p) := by
+  unfold loadIPFSNode at h
+  simp only at h
+  split at h
+  · rename_i v p ho
+    simp at h
+    refine ⟨h.1.symm, ?_⟩
+    intro v' hv'
+    rw [← h.2] at hv'
+    simp at hv'
+    subst hv'
+    exact ⟨p, ho⟩
+  · simp at h
+    refine ⟨h.1.symm, ?_⟩
+    intro v' hv'
+    rw [← h.2] at hv'
+    simp at hv'
+
 /-- a load keeps the invariant and changes neither the clock nor the origin -/
-theorem inv_loadHTTP (cfg : Cfg) : ∀ (hops : Nat) (s s' : St) (u : String) (r : Res), CacheInv cfg s →
-    loadHTTP cfg hops s u = (s', r) → CacheInv cfg s' ∧ s'.now = s.now ∧ s'.origin = s.origin := by
+theorem inv_loadHTTP (cfg : Cfg) (route : String → Route) : ∀ (hops : Nat) (s s' : St) (u : String) (r : Res), CacheInv cfg s →
+    loadHTTP cfg route hops s u = (s', r) → CacheInv cfg s' ∧ s'.now = s.now ∧ s'.origin = s.origin := by
   intro hops
   induction hops with
   | zero =>
@@ -104,18 +124,34 @@ theorem inv_loadHTTP (cfg : Cfg) : ∀ (hops : Nat) (s s' : St) (u : String) (r 
       · rename_i t p _
         try simp only at h
         split at h
-        · rename_i s2 v hin
-          simp at h; obtain ⟨h1, _⟩ := h; subst h1
-          obtain ⟨i2, n2, o2⟩ := ih (bump s) s2 t _ (bump_inv cfg s hi) hin
-          have f := store_frame cfg s2 u v p
-          exact ⟨store_inv cfg s2 u v p i2, by rw [f.1, n2]; rfl, by rw [f.2.1, o2]; rfl⟩
-        · rename_i s2 r2 _ hin
-          simp at h; obtain ⟨h1, _⟩ := h; subst h1
-          obtain ⟨i2, n2, o2⟩ := ih (bump s) s2 t r2 (bump_inv cfg s hi) hin
-          exact ⟨i2, n2, o2⟩
+        · simp at h; obtain ⟨h1, _⟩ := h; subst h1; exact ⟨bump_inv cfg s hi, rfl, rfl⟩
+        · rename_i key _
+          split at h
+          · rename_i s2 v hin
+            simp at h; obtain ⟨h1, _⟩ := h; subst h1
+            obtain ⟨e2, _⟩ := ipfsNode_spec (bump s) s2 key _ hin
+            subst e2
+            have f := store_frame cfg (bump (bump s)) u v p
+            exact ⟨store_inv cfg _ u v p (bump_inv cfg _ (bump_inv cfg s hi)), by rw [f.1]; rfl, by rw [f.2.1]; rfl⟩
+          · rename_i s2 r2 _ hin
+            simp at h; obtain ⟨h1, _⟩ := h; subst h1
+            obtain ⟨e2, _⟩ := ipfsNode_spec (bump s) s2 key _ hin
+            subst e2
+            exact ⟨bump_inv cfg _ (bump_inv cfg s hi), rfl, rfl⟩
+        · rename_i t' _
+          split at h
+          · rename_i s2 v hin
+            simp at h; obtain ⟨h1, _⟩ := h; subst h1
+            obtain ⟨i2, n2, o2⟩ := ih (bump s) s2 t' _ (bump_inv cfg s hi) hin
+            have f := store_frame cfg s2 u v p
+            exact ⟨store_inv cfg s2 u v p i2, by rw [f.1, n2]; rfl, by rw [f.2.1, o2]; rfl⟩
+          · rename_i s2 r2 _ hin
+            simp at h; obtain ⟨h1, _⟩ := h; subst h1
+            obtain ⟨i2, n2, o2⟩ := ih (bump s) s2 t' r2 (bump_inv cfg s hi) hin
+            exact ⟨i2, n2, o2⟩
 
 /-- **the invariant is preserved by every operation** -/
-theorem inv_step (cfg : Cfg) (s s' : St) (op : Op) (r : Res) (hi : CacheInv cfg s) (h : step cfg s op = (s', r)) :
+theorem inv_step (cfg : Cfg) (route : String → Route) (s s' : St) (op : Op) (r : Res) (hi : CacheInv cfg s) (h : step cfg route s op = (s', r)) :
     CacheInv cfg s' := by
   cases op with
   | serve u v p => simp [step] at h; obtain ⟨h1, _⟩ := h; subst h1; exact ⟨hi.cached, hi.past, hi.noEmbedded⟩
@@ -127,7 +163,7 @@ theorem inv_step (cfg : Cfg) (s s' : St) (op : Op) (r : Res) (hi : CacheInv cfg 
   | load sc u g =>
     simp only [step, load] at h
     cases sc with
-    | http => exact (inv_loadHTTP cfg _ s s' u r hi h).1
+    | http => exact (inv_loadHTTP cfg route _ s s' u r hi h).1
     | other => simp at h; obtain ⟨h1, _⟩ := h; subst h1; exact hi
     | ipfs =>
       simp only at h
@@ -135,18 +171,18 @@ theorem inv_step (cfg : Cfg) (s s' : St) (op : Op) (r : Res) (hi : CacheInv cfg 
       · simp only [loadIPFSNode] at h
         split at h <;> (simp at h; obtain ⟨h1, _⟩ := h; subst h1; exact ⟨hi.cached, hi.past, hi.noEmbedded⟩)
       · split at h
-        · exact (inv_loadHTTP cfg _ s s' g r hi h).1
+        · exact (inv_loadHTTP cfg route _ s s' g r hi h).1
         · simp at h; obtain ⟨h1, _⟩ := h; subst h1; exact hi
 
 /-- … hence it holds in every reachable state, along any history -/
-theorem inv_run (cfg : Cfg) : ∀ (ops : List Op) (s : St), CacheInv cfg s → CacheInv cfg (run cfg s ops).1 := by
+theorem inv_run (cfg : Cfg) (route : String → Route) : ∀ (ops : List Op) (s : St), CacheInv cfg s → CacheInv cfg (run cfg route s ops).1 := by
   intro ops
   induction ops with
   | nil => intro s hi; simpa [run] using hi
   | cons op ops ih =>
     intro s hi
     simp only [run]
-    have := inv_step cfg s (step cfg s op).1 op (step cfg s op).2 hi rfl
+    have := inv_step cfg route s (step cfg route s op).1 op (step cfg route s op).2 hi rfl
     exact ih _ this
 
 /-- what a load of `u` may return in state `s`: the document the origin serves for it now — directly, or through
@@ -154,22 +190,26 @@ theorem inv_run (cfg : Cfg) : ∀ (ops : List Op) (s : St), CacheInv cfg s → C
     whose lifetime has not expired, or the embedded one. (For a page with an alternate link "received for u" is
     the document obtained from the link's target at that time, stored under the page's own policy: finding F9,
     `alternate_page_reuses_target_document` below.) -/
-inductive Allowed (cfg : Cfg) (s : St) : String → Nat → Prop
-  | current (u : String) (v : Nat) (p : Policy) : s.origin.lookup u = some (.serves v p) → Allowed cfg s u v
-  | viaAlternate (u t : String) (p : Policy) (v : Nat) : s.origin.lookup u = some (.alt t p) → Allowed cfg s t v → Allowed cfg s u v
-  | cached (u : String) (v : Nat) (t l : Int) : (u, v, t, l) ∈ s.received → t + l > s.now → Allowed cfg s u v
-  | embedded (u : String) (v : Nat) : cfg.embedded.lookup u = some v → Allowed cfg s u v
+inductive Allowed (cfg : Cfg) (route : String → Route) (s : St) : String → Nat → Prop
+  | current (u : String) (v : Nat) (p : Policy) : s.origin.lookup u = some (.serves v p) → Allowed cfg route s u v
+  | viaAlternate (u t t' : String) (p : Policy) (v : Nat) : s.origin.lookup u = some (.alt t p) → route t = .http t' →
+      Allowed cfg route s t' v → Allowed cfg route s u v
+  | viaAlternateNode (u t key : String) (p p' : Policy) (v : Nat) : s.origin.lookup u = some (.alt t p) → route t = .node key →
+      s.origin.lookup key = some (.serves v p') → Allowed cfg route s u v
+  | cached (u : String) (v : Nat) (t l : Int) : (u, v, t, l) ∈ s.received → t + l > s.now → Allowed cfg route s u v
+  | embedded (u : String) (v : Nat) : cfg.embedded.lookup u = some v → Allowed cfg route s u v
 
-theorem allowed_congr (cfg : Cfg) (s s1 : St) (ho : s1.origin = s.origin) (hr : s1.received = s.received) (hn : s1.now = s.now)
-    (u : String) (v : Nat) (h : Allowed cfg s1 u v) : Allowed cfg s u v := by
+theorem allowed_congr (cfg : Cfg) (route : String → Route) (s s1 : St) (ho : s1.origin = s.origin) (hr : s1.received = s.received) (hn : s1.now = s.now)
+    (u : String) (v : Nat) (h : Allowed cfg route s1 u v) : Allowed cfg route s u v := by
   induction h with
   | current u v p h1 => exact .current u v p (by rw [← ho]; exact h1)
-  | viaAlternate u t p v h1 _ ih => exact .viaAlternate u t p v (by rw [← ho]; exact h1) ih
+  | viaAlternate u t t' p v h1 h2 _ ih => exact .viaAlternate u t t' p v (by rw [← ho]; exact h1) h2 ih
+  | viaAlternateNode u t key p p' v h1 h2 h3 => exact .viaAlternateNode u t key p p' v (by rw [← ho]; exact h1) h2 (by rw [← ho]; exact h3)
   | cached u v t l h1 h2 => exact .cached u v t l (by rw [← hr]; exact h1) (by rw [← hn]; exact h2)
   | embedded u v h1 => exact .embedded u v h1
 
-theorem cacheHit_allowed (cfg : Cfg) (s : St) (u : String) (v : Nat) (hi : CacheInv cfg s) (h : cacheHit cfg s u = some v) :
-    Allowed cfg s u v := by
+theorem cacheHit_allowed (cfg : Cfg) (route : String → Route) (s : St) (u : String) (v : Nat) (hi : CacheInv cfg s) (h : cacheHit cfg s u = some v) :
+    Allowed cfg route s u v := by
   unfold cacheHit at h
   split at h
   · rename_i v' exp hhit
@@ -192,8 +232,8 @@ theorem cacheHit_allowed (cfg : Cfg) (s : St) (u : String) (v : Nat) (hi : Cache
   · simp at h
 
 /-- **Freshness**: a document returned for an http(s) URL is one `Allowed` describes -/
-theorem load_fresh (cfg : Cfg) : ∀ (hops : Nat) (s s' : St) (u : String) (v : Nat), CacheInv cfg s →
-    loadHTTP cfg hops s u = (s', .doc v) → Allowed cfg s u v := by
+theorem load_fresh (cfg : Cfg) (route : String → Route) : ∀ (hops : Nat) (s s' : St) (u : String) (v : Nat), CacheInv cfg s →
+    loadHTTP cfg route hops s u = (s', .doc v) → Allowed cfg route s u v := by
   intro hops
   induction hops with
   | zero =>
@@ -202,7 +242,7 @@ theorem load_fresh (cfg : Cfg) : ∀ (hops : Nat) (s s' : St) (u : String) (v : 
     split at h
     · rename_i v' hhit
       simp at h; obtain ⟨_, hv⟩ := h; subst hv
-      exact cacheHit_allowed cfg s u v' hi hhit
+      exact cacheHit_allowed cfg route s u v' hi hhit
     · simp only at h
       split at h
       · simp at h
@@ -217,7 +257,7 @@ theorem load_fresh (cfg : Cfg) : ∀ (hops : Nat) (s s' : St) (u : String) (v : 
     split at h
     · rename_i v' hhit
       simp at h; obtain ⟨_, hv⟩ := h; subst hv
-      exact cacheHit_allowed cfg s u v' hi hhit
+      exact cacheHit_allowed cfg route s u v' hi hhit
     · simp only at h
       split at h
       · simp at h
@@ -228,26 +268,38 @@ theorem load_fresh (cfg : Cfg) : ∀ (hops : Nat) (s s' : St) (u : String) (v : 
       · rename_i t p ho
         try simp only at h
         split at h
-        · rename_i s2 v' hin
-          simp at h; obtain ⟨_, hv⟩ := h; subst hv
-          have := ih (bump s) s2 t v' (bump_inv cfg s hi) hin
-          exact .viaAlternate u t p v' ho (allowed_congr cfg s (bump s) rfl rfl rfl t v' this)
         · simp at h
+        · rename_i key hroute
+          split at h
+          · rename_i s2 v' hin
+            simp at h; obtain ⟨_, hv⟩ := h; subst hv
+            obtain ⟨_, hdoc⟩ := ipfsNode_spec (bump s) s2 key _ hin
+            obtain ⟨p', hp'⟩ := hdoc v' rfl
+            exact .viaAlternateNode u t key p p' v' ho hroute hp'
+          · simp at h
+        · rename_i t' hroute
+          split at h
+          · rename_i s2 v' hin
+            simp at h; obtain ⟨_, hv⟩ := h; subst hv
+            have := ih (bump s) s2 t' v' (bump_inv cfg s hi) hin
+            exact .viaAlternate u t t' p v' ho hroute (allowed_congr cfg route s (bump s) rfl rfl rfl t' v' this)
+          · simp at h
 
 /-- a failing origin never produces a document unless a fresh cached or embedded one exists -/
-theorem failure_not_returned (cfg : Cfg) (hops : Nat) (s s' : St) (u : String) (v : Nat) (hi : CacheInv cfg s)
+theorem failure_not_returned (cfg : Cfg) (route : String → Route) (hops : Nat) (s s' : St) (u : String) (v : Nat) (hi : CacheInv cfg s)
     (hfail : s.origin.lookup u = some .fails ∨ s.origin.lookup u = none)
-    (h : loadHTTP cfg hops s u = (s', .doc v)) :
+    (h : loadHTTP cfg route hops s u = (s', .doc v)) :
     (∃ t l, (u, v, t, l) ∈ s.received ∧ t + l > s.now) ∨ cfg.embedded.lookup u = some v := by
-  have ha := load_fresh cfg hops s s' u v hi h
+  have ha := load_fresh cfg route hops s s' u v hi h
   cases ha with
   | current _ _ p hp => rcases hfail with hf | hf <;> (rw [hf] at hp; simp at hp)
-  | viaAlternate _ t p _ hp _ => rcases hfail with hf | hf <;> (rw [hf] at hp; simp at hp)
+  | viaAlternate _ t t' p _ hp _ _ => rcases hfail with hf | hf <;> (rw [hf] at hp; simp at hp)
+  | viaAlternateNode _ t key p p' _ hp _ _ => rcases hfail with hf | hf <;> (rw [hf] at hp; simp at hp)
   | cached _ _ t l h1 h2 => exact Or.inl ⟨t, l, h1, h2⟩
   | embedded _ _ h1 => exact Or.inr h1
 
 /-- a load does not move the clock -/
-theorem loadHTTP_now (cfg : Cfg) : ∀ (hops : Nat) (a b : St) (w : String) (q : Res), loadHTTP cfg hops a w = (b, q) → b.now = a.now := by
+theorem loadHTTP_now (cfg : Cfg) (route : String → Route) : ∀ (hops : Nat) (a b : St) (w : String) (q : Res), loadHTTP cfg route hops a w = (b, q) → b.now = a.now := by
   intro hops
   induction hops with
   | zero =>
@@ -273,18 +325,29 @@ theorem loadHTTP_now (cfg : Cfg) : ∀ (hops : Nat) (a b : St) (w : String) (q :
       · simp at hh; rw [← hh.1, (store_frame cfg _ _ _ _).1]; rfl
       · try simp only at hh
         split at hh
-        · rename_i s3 v3 hin3
-          simp at hh; rw [← hh.1, (store_frame cfg _ _ _ _).1]
-          exact ihm (bump a) s3 _ _ hin3
-        · rename_i s3 r3 _ hin3
-          simp at hh; rw [← hh.1]
-          exact ihm (bump a) _ _ r3 hin3
+        · simp at hh; rw [← hh.1]; rfl
+        · rename_i key _
+          split at hh
+          · rename_i s3 v3 hin3
+            simp at hh; rw [← hh.1, (store_frame cfg _ _ _ _).1]
+            rw [(ipfsNode_spec (bump a) s3 key _ hin3).1]; rfl
+          · rename_i s3 r3 _ hin3
+            simp at hh; rw [← hh.1]
+            rw [(ipfsNode_spec (bump a) s3 key _ hin3).1]; rfl
+        · rename_i t' _
+          split at hh
+          · rename_i s3 v3 hin3
+            simp at hh; rw [← hh.1, (store_frame cfg _ _ _ _).1]
+            exact ihm (bump a) s3 _ _ hin3
+          · rename_i s3 r3 _ hin3
+            simp at hh; rw [← hh.1]
+            exact ihm (bump a) _ _ r3 hin3
 
 /-- responses that forbid or do not permit caching are never reused, and failed responses are never cached:
     whatever a load adds to the history the cache draws from was obtained now, for a URL whose own response
     (a document, or a page with an alternate link) was successful and storable, with that response's lifetime -/
-theorem only_storable_received (cfg : Cfg) : ∀ (hops : Nat) (s s' : St) (u : String) (r : Res) (x : String × Nat × Int × Int),
-    loadHTTP cfg hops s u = (s', r) → x ∈ s'.received → x ∉ s.received →
+theorem only_storable_received (cfg : Cfg) (route : String → Route) : ∀ (hops : Nat) (s s' : St) (u : String) (r : Res) (x : String × Nat × Int × Int),
+    loadHTTP cfg route hops s u = (s', r) → x ∈ s'.received → x ∉ s.received →
     ∃ u' v' p, x = (u', v', s.now, p.lifetime) ∧ p.storable = true ∧ cfg.cacheOn = true ∧
       (s.origin.lookup u' = some (.serves v' p) ∨ ∃ t, s.origin.lookup u' = some (.alt t p)) := by
   have hstore : ∀ (s0 : St) (u0 : String) (v0 : Nat) (p0 : Policy) (x : String × Nat × Int × Int),
@@ -331,20 +394,36 @@ theorem only_storable_received (cfg : Cfg) : ∀ (hops : Nat) (s s' : St) (u : S
       · rename_i t p ho
         try simp only at h
         split at h
-        · rename_i s2 v hin
-          simp at h; obtain ⟨h1, _⟩ := h; subst h1
-          by_cases hx2 : x ∈ s2.received
-          · exact ih (bump s) s2 t _ x hin hx2 hnew
-          · obtain ⟨e, a, b⟩ := hstore s2 u v p x hx hx2
-            have hn2 : s2.now = s.now := loadHTTP_now cfg n (bump s) s2 t _ hin
-            exact ⟨u, v, p, by rw [e, hn2], a, b, Or.inr ⟨t, ho⟩⟩
-        · rename_i s2 r2 _ hin
-          simp at h; obtain ⟨h1, _⟩ := h; subst h1
-          exact ih (bump s) s2 t r2 x hin hx hnew
+        · simp at h; obtain ⟨h1, _⟩ := h; subst h1; exact absurd hx hnew
+        · rename_i key _
+          split at h
+          · rename_i s2 v hin
+            simp at h; obtain ⟨h1, _⟩ := h; subst h1
+            have e2 := (ipfsNode_spec (bump s) s2 key _ hin).1
+            subst e2
+            obtain ⟨e, a, b⟩ := hstore (bump (bump s)) u v p x hx hnew
+            exact ⟨u, v, p, e, a, b, Or.inr ⟨t, ho⟩⟩
+          · rename_i s2 r2 _ hin
+            simp at h; obtain ⟨h1, _⟩ := h; subst h1
+            have e2 := (ipfsNode_spec (bump s) s2 key _ hin).1
+            subst e2
+            exact absurd hx hnew
+        · rename_i t' _
+          split at h
+          · rename_i s2 v hin
+            simp at h; obtain ⟨h1, _⟩ := h; subst h1
+            by_cases hx2 : x ∈ s2.received
+            · exact ih (bump s) s2 t' _ x hin hx2 hnew
+            · obtain ⟨e, a, b⟩ := hstore s2 u v p x hx hx2
+              have hn2 : s2.now = s.now := loadHTTP_now cfg route n (bump s) s2 t' _ hin
+              exact ⟨u, v, p, by rw [e, hn2], a, b, Or.inr ⟨t, ho⟩⟩
+          · rename_i s2 r2 _ hin
+            simp at h; obtain ⟨h1, _⟩ := h; subst h1
+            exact ih (bump s) s2 t' r2 x hin hx hnew
 
 /-- embedded documents are returned without any request … -/
-theorem embedded_no_request (cfg : Cfg) (hops : Nat) (s : St) (u : String) (v : Nat) (hc : cfg.cacheOn = true)
-    (he : cfg.embedded.lookup u = some v) : loadHTTP cfg hops s u = (s, .doc v) := by
+theorem embedded_no_request (cfg : Cfg) (route : String → Route) (hops : Nat) (s : St) (u : String) (v : Nat) (hc : cfg.cacheOn = true)
+    (he : cfg.embedded.lookup u = some v) : loadHTTP cfg route hops s u = (s, .doc v) := by
   have hh : cacheHit cfg s u = some v := by
     unfold cacheHit
     simp only [hc, if_true, cacheGet, he]
@@ -359,8 +438,8 @@ theorem embedded_never_overwritten (cfg : Cfg) (c : Cache) (u : String) (v : Nat
   simp [cacheSet, he]
 
 /-- without a cache every load is at least one request, and nothing is ever stored -/
-theorem cache_disabled_always_requests (cfg : Cfg) (hc : cfg.cacheOn = false) : ∀ (hops : Nat) (s : St) (u : String),
-    (loadHTTP cfg hops s u).1.requests ≥ s.requests + 1 ∧ (loadHTTP cfg hops s u).1.cache = s.cache := by
+theorem cache_disabled_always_requests (cfg : Cfg) (route : String → Route) (hc : cfg.cacheOn = false) : ∀ (hops : Nat) (s : St) (u : String),
+    (loadHTTP cfg route hops s u).1.requests ≥ s.requests + 1 ∧ (loadHTTP cfg route hops s u).1.cache = s.cache := by
   have hmiss : ∀ (s : St) (u : String), cacheHit cfg s u = none := by
     intro s u; simp [cacheHit, hc]
   have hst : ∀ (s : St) (u : String) (v : Nat) (p : Policy), store cfg s u v p = s := by
@@ -381,47 +460,94 @@ theorem cache_disabled_always_requests (cfg : Cfg) (hc : cfg.cacheOn = false) : 
     · simp
     · simp
     · rename_i t p _
-      have := ih (bump s) t
       try simp only
       split
-      · rename_i s2 v hin
-        rw [hin] at this
-        simp at this ⊢
-        exact ⟨by omega, this.2⟩
-      · rename_i s2 r2 _ hin
-        rw [hin] at this
-        simp at this ⊢
-        exact ⟨by omega, this.2⟩
+      · simp
+      · rename_i key _
+        split
+        · rename_i s2 v hin
+          have e2 := (ipfsNode_spec (bump s) s2 key _ hin).1
+          subst e2
+          simp
+        · rename_i s2 r2 _ hin
+          have e2 := (ipfsNode_spec (bump s) s2 key _ hin).1
+          subst e2
+          simp
+      · rename_i t' _
+        have := ih (bump s) t'
+        split
+        · rename_i s2 v hin
+          rw [hin] at this
+          simp at this ⊢
+          exact ⟨by omega, this.2⟩
+        · rename_i s2 r2 _ hin
+          rw [hin] at this
+          simp at this ⊢
+          exact ⟨by omega, this.2⟩
 
 /-- **finding F9, proved on the model**: a page whose response allows caching, with an alternate link to a document
     whose own response forbids it: the document is stored under the page's URL and returned for it later,
     without any request, although the origin has replaced it in the meantime -/
 theorem alternate_page_reuses_target_document :
-    (run ⟨true, [], false, false⟩ {} [.serveAlt "p" "d" ⟨true, 3600⟩, .serve "d" 1 ⟨false, 0⟩, .load .http "p" "",
+    (run ⟨true, [], false, false⟩ (fun t => .http t) {} [.serveAlt "p" "d" ⟨true, 3600⟩, .serve "d" 1 ⟨false, 0⟩, .load .http "p" "",
       .serve "d" 2 ⟨false, 0⟩, .load .http "p" "", .load .http "d" ""]).2 =
       [.none_, .none_, .doc 1, .none_, .doc 1, .doc 2] := by decide +kernel
 
 /-- the hop bound: a page whose alternate link leads back to itself is an error after `maxHops` + 1 requests (defect D19:
     before the repair the chain was followed without end) -/
 theorem alternate_loop_is_error :
-    (fun r => (r.1.requests, r.2)) (run ⟨true, [], false, false⟩ {} [.serveAlt "p" "p" ⟨true, 3600⟩, .load .http "p" ""]) =
+    (fun r => (r.1.requests, r.2)) (run ⟨true, [], false, false⟩ (fun t => .http t) {} [.serveAlt "p" "p" ⟨true, 3600⟩, .load .http "p" ""]) =
       (maxHops + 1, [.none_, .err]) := by decide +kernel
+
+/-- **the target of an alternate link is routed like any URL** (Go: d.loadDocument(finalURL, hops+1)): a target the
+    scheme dispatch rejects - any scheme but http(s) and ipfs, or ipfs with neither client nor gateway - fails the load after
+    the one request for the page, and nothing is sent anywhere else -/
+theorem alternate_rejected_scheme (cfg : Cfg) (route : String → Route) (hops : Nat) (s : St) (u t : String) (p : Policy)
+    (hmiss : cacheHit cfg s u = none) (ho : s.origin.lookup u = some (.alt t p)) (hr : route t = .reject) :
+    loadHTTP cfg route hops s u = (bump s, .err) := by
+  cases hops with
+  | zero => unfold loadHTTP; simp [hmiss, ho]
+  | succ h => unfold loadHTTP; simp [hmiss, ho, hr]
+
+/-- … a target that is an ipfs URL, with an IPFS client configured, is fetched from the node (never over HTTP); the page's
+    URL is then answered and stored as for any alternate -/
+theorem alternate_to_ipfs_node (cfg : Cfg) (route : String → Route) (h : Nat) (s : St) (u t key : String) (p : Policy)
+    (hmiss : cacheHit cfg s u = none) (ho : s.origin.lookup u = some (.alt t p)) (hr : route t = .node key) :
+    (∀ s2 v, loadIPFSNode (bump s) key = (s2, .doc v) → loadHTTP cfg route (h+1) s u = (store cfg s2 u v p, .doc v)) ∧
+    (∀ s2 r, loadIPFSNode (bump s) key = (s2, r) → (∀ v, r ≠ .doc v) → loadHTTP cfg route (h+1) s u = (s2, .err)) := by
+  constructor
+  · intro s2 v hn
+    unfold loadHTTP; simp [hmiss, ho, hr, hn]
+  · intro s2 r hn hnd
+    cases r with
+    | doc v => exact absurd rfl (hnd v)
+    | err => unfold loadHTTP; simp [hmiss, ho, hr, hn]
+    | none_ => unfold loadHTTP; simp [hmiss, ho, hr, hn]
+
+/-- witness: a page whose alternate is an ftp URL is an error after one request; with an ipfs alternate and a client the
+    node's document is returned -/
+theorem alternate_routing_witness :
+    (fun r => (r.1.requests, r.2)) (run ⟨true, [], true, false⟩
+      (fun t => if t = "ipfs://d" then .node "ipfs-node:d" else if t = "ftp://d" then .reject else .http t) {}
+      [.serveAlt "p" "ftp://d" ⟨true, 60⟩, .serve "ftp://d" 66 ⟨true, 60⟩, .load .http "p" "",
+       .serveAlt "q" "ipfs://d" ⟨false, 0⟩, .serve "ipfs-node:d" 8 ⟨false, 0⟩, .serve "ipfs://d" 66 ⟨true, 60⟩, .load .http "q" ""]) =
+      (3, [.none_, .none_, .err, .none_, .none_, .none_, .doc 8]) := by decide +kernel
 
 /-- **Routing**: http(s) → the HTTP client; ipfs → the IPFS client when one is set, otherwise the gateway,
     otherwise an error; every other scheme is rejected -/
-theorem route_spec (cfg : Cfg) (s : St) (u g : String) :
-    load cfg s .http u g = loadHTTP cfg maxHops s u ∧
-    (cfg.ipfsClient = true → load cfg s .ipfs u g = loadIPFSNode s u) ∧
-    (cfg.ipfsClient = false → cfg.ipfsGateway = true → load cfg s .ipfs u g = loadHTTP cfg maxHops s g) ∧
-    (cfg.ipfsClient = false → cfg.ipfsGateway = false → load cfg s .ipfs u g = (s, .err)) ∧
-    load cfg s .other u g = (s, .err) := by
+theorem route_spec (cfg : Cfg) (route : String → Route) (s : St) (u g : String) :
+    load cfg route s .http u g = loadHTTP cfg route maxHops s u ∧
+    (cfg.ipfsClient = true → load cfg route s .ipfs u g = loadIPFSNode s u) ∧
+    (cfg.ipfsClient = false → cfg.ipfsGateway = true → load cfg route s .ipfs u g = loadHTTP cfg route maxHops s g) ∧
+    (cfg.ipfsClient = false → cfg.ipfsGateway = false → load cfg route s .ipfs u g = (s, .err)) ∧
+    load cfg route s .other u g = (s, .err) := by
   refine ⟨rfl, ?_, ?_, ?_, rfl⟩
   · intro h; simp [load, h]
   · intro h1 h2; simp [load, h1, h2]
   · intro h1 h2; simp [load, h1, h2]
 
 -- non-vacuity: a history in which a cached document is reused while fresh and refetched when stale
-example : (run ⟨true, [], false, false⟩ {} [.serve "u" 1 ⟨true, 2⟩, .load .http "u" "", .serve "u" 2 ⟨true, 2⟩,
+example : (run ⟨true, [], false, false⟩ (fun t => .http t) {} [.serve "u" 1 ⟨true, 2⟩, .load .http "u" "", .serve "u" 2 ⟨true, 2⟩,
     .load .http "u" "", .tick 3, .load .http "u" ""]).2 = [.none_, .doc 1, .none_, .doc 1, .none_, .doc 2] := by decide
 
 end Gsp.Props.C19
